@@ -42,7 +42,8 @@ CODES = {'err_listed': 2001, 'err_listed2': -32000, 'err_unlisted': 7}
 class State:
     def __init__(self, scn):
         self.ev = []
-        self.script = list(scn['script'])
+        self.scripts = [list(x) for x in scn['scripts']]
+        self.script = self.scripts[0]
         self.n = 0
         self.raised = None
         self.ctx_ids = {}
@@ -196,11 +197,19 @@ def run(scn, loop):
     else:
         st.request = pjrpc.Request('m', [1], id=None if cfg['req'] == 'notification' else 1)
         call = lambda: client.send(st.request, **kwargs)          # noqa: E731
-    try:
-        resp = loop.run_until_complete(call()) if is_async else call()
-        st.ev.append({'ev': 'Return', 'o': classify_response(resp)})
-    except BaseException as e:  # noqa
-        st.ev.append({'ev': 'Raise', 'o': classify_exc(e), 'same': st.raised is None or e is st.raised})
+    for rnd in range(cfg.get('rounds', 1)):
+        if rnd:
+            # the next request on the SAME client, strategy and tracer objects
+            st.ev.append({'ev': 'Again'})
+            st.script = st.scripts[rnd]
+            st.n = 0
+            st.raised = None
+            st.ctx_ids = {}
+        try:
+            resp = loop.run_until_complete(call()) if is_async else call()
+            st.ev.append({'ev': 'Return', 'o': classify_response(resp)})
+        except BaseException as e:  # noqa
+            st.ev.append({'ev': 'Raise', 'o': classify_exc(e), 'same': st.raised is None or e is st.raised})
     return {'scn': scn, 'ev': st.ev}
 
 
